@@ -183,27 +183,91 @@ def has_subquery(t):
     return False
 
 
+SET_NAMES = set()   # names declared as set symbols in any store of the schema line
+
+
+def load_schema(sline):
+    toks = sline.split()
+    for i, tk in enumerate(toks):
+        if tk == "set":
+            SET_NAMES.add(unhex(toks[i + 1]))
+
+
+def atoms(t, inner=False):
+    """(atom, inside-a-sub-query) for every atom of the filter"""
+    k = t[0]
+    if k in ("q", "not"):
+        return atoms(t[1], inner)
+    if k in ("and", "or"):
+        return atoms(t[1], inner) + atoms(t[2], inner)
+    out = [(t, inner)]
+    se = None
+    if k == "bin" and t[1][0] == "cnt":
+        se = t[1][1]
+    if k in ("in", "btw") and t[2][0] == "cnt":
+        se = t[2][1]
+    if k == "empty":
+        se = t[1]
+    if se is not None and se[0] == "sub":
+        out += atoms(se[2], True)
+    return out
+
+
+def set_in_plain_context(t):
+    for a, inner in atoms(t):
+        name = None
+        if a[0] == "bin" and a[1][0] == "sym":
+            name = a[1][1]
+        if a[0] in ("in", "btw") and a[2][0] == "sym":
+            name = a[2][1]
+        if a[0] == "bs":
+            name = a[1]
+        if name is not None and inner and any(p in SET_NAMES for p in unhex(name).split(b".")):
+            return True
+    return False
+
+
 def class_key(verdict, t):
-    """stable signature of the class of failure"""
+    """stable signature of the class of failure (computed on the shrunk filter)"""
     shape, op, lit = features(t)
-    if verdict == "panic":
-        if op in ("icontains", "nicontains"):
-            return "C01:panic-icontains-null"
-        if op in ("between", "notbetween"):
-            return "C01:panic-between-operands"
-        if shape.startswith("count") and lit == "N":
-            return "C01:count-null"
-        return "C01:panic:%s:%s:%s" % (shape, op, lit)
     if shape.startswith("count") and lit == "N":
         return "C01:count-null"
+    if verdict in ("panic", "accepted", "ids") and set_in_plain_context(t):
+        return "C01:validator-subquery-set-context"
+    if verdict == "panic":
+        if any(a[0] == "bin" and a[2] in ("icontains", "nicontains") for a, _ in atoms(t)):
+            return "C01:panic-icontains-null"
+        if any(a[0] == "btw" for a, _ in atoms(t)):
+            return "C01:panic-between-operands"
+        return "C01:panic:%s:%s:%s" % (shape, op, lit)
     if verdict == "ids":
-        if shape.startswith("anyOf") and op == "neq" and not shape.endswith("dotted"):
+        if shape == "anyOf" and op == "neq":
             return "C01:anyOf-neq-seek"
         if shape in ("allOf", "anyOf", "allOf-dotted", "anyOf-dotted") and op in ("notin", "notbetween"):
             return "C01:setfn-negation-hoisted"
-        if shape == "count-subquery" or shape == "isEmpty-subquery":
-            return "C01:subquery:%s" % shape
+        if shape in ("count-subquery", "isEmpty-subquery"):
+            return "C01:subquery-" + ("null-element" if dotted_subquery(t) else "count-ignored" if shape == "count-subquery" else "isEmpty")
+        if shape in ("allOf-dotted", "anyOf-dotted") and lhs_parts(t) >= 3:
+            return "C01:dotted-set-tail"
     return "C01:%s:%s:%s:%s" % (verdict, shape, op, lit)
+
+
+def first_atom(t):
+    while t[0] in ("q", "not", "and", "or"):
+        t = t[1]
+    return t
+
+
+def dotted_subquery(t):
+    a = first_atom(t)
+    se = a[1] if a[0] == "empty" else (a[1][1] if a[0] == "bin" else a[2][1])
+    return b"." in unhex(se[1])
+
+
+def lhs_parts(t):
+    a = first_atom(t)
+    l = a[1] if a[0] == "bin" else a[2]
+    return len(unhex(l[1]).split(b"."))
 
 
 # ------------------------------------------------------------------ running both sides
@@ -302,17 +366,51 @@ def q_line(store, t, text_of):
     return "Q %s %s %s" % (store, text_of(t), term(t))
 
 
+RANK = {"panic": 3, "ids": 2, "accepted": 1, "rejected": 1, "model": 1}
+
+
+def replace_subquery(t, f):
+    """candidates obtained by shrinking the predicate of a sub-query inside atom t"""
+    k = t[0]
+    out = []
+
+    def se_cands(se):
+        if se[0] != "sub":
+            return []
+        q = se[2]
+        body = q[1]
+        res = [("sub", se[1], ("q", s, q[2], q[3])) for s in subterms(body)]
+        if q[2] != "-" or q[3] != "-":
+            res.append(("sub", se[1], ("q", body, "-", "-")))
+        if body != ("bc", "1"):
+            res.append(("sub", se[1], ("q", ("bc", "1"), q[2], q[3])))
+        for inner in replace_subquery(body, f):
+            res.append(("sub", se[1], ("q", inner, q[2], q[3])))
+        return res
+    if k == "bin" and t[1][0] == "cnt":
+        out += [("bin", ("cnt", c), t[2], t[3]) for c in se_cands(t[1][1])]
+    elif k in ("in", "btw") and t[2][0] == "cnt":
+        out += [t[:2] + (("cnt", c),) + t[3:] for c in se_cands(t[2][1])]
+    elif k == "empty":
+        out += [("empty", c) for c in se_cands(t[1])]
+    elif k == "not":
+        out += [("not", c) for c in replace_subquery(t[1], f)]
+    elif k in ("and", "or"):
+        out += [(k, c, t[2]) for c in replace_subquery(t[1], f)] + [(k, t[1], c) for c in replace_subquery(t[2], f)]
+    return out
+
+
 def shrink(rn, sline, dline, store, t, kind, text_of):
-    """greedy shrinking of (dataset, filter) keeping the same kind of verdict"""
+    """greedy shrinking of (dataset, filter) keeping (or strengthening) the kind of verdict"""
     def fails(dl, tt):
         try:
             impl, modl = rn.run([sline, dl, q_line(store, tt, text_of)])
         except Exception:
             return False
         v = verdict(impl[-1], modl[-1])
-        return v is not None and v[0] == kind
+        return v is not None and RANK[v[0]] >= RANK[kind]
 
-    budget = [60]
+    budget = [70]
 
     def try_(dl, tt):
         if budget[0] <= 0:
@@ -320,13 +418,13 @@ def shrink(rn, sline, dline, store, t, kind, text_of):
         budget[0] -= 1
         return fails(dl, tt)
 
-    # filter: replace by sub-filters
+    # filter: replace by sub-filters, shrink sub-queries
     changed = True
     while changed:
         changed = False
         body = t[1] if t[0] == "q" else t
-        for s in subterms(body):
-            cand = ("q", s, "-", "-")
+        cands = [("q", s, "-", "-") for s in subterms(body)] + [("q", s, "-", "-") for s in replace_subquery(body, None)]
+        for cand in cands:
             if try_(dline, cand):
                 t = cand
                 changed = True
@@ -346,7 +444,6 @@ def shrink(rn, sline, dline, store, t, kind, text_of):
                 i += 1
     for si in range(len(stores)):
         for ei in range(len(stores[si])):
-            eid, fields, sets = stores[si][ei]
             for what in ("fields", "sets"):
                 i = 0
                 while True:
@@ -427,6 +524,7 @@ def main(argv):
     for case, i, m in zip(cases, impl, modl):
         if case.startswith("S "):
             sline = case
+            load_schema(case)
             continue
         if case.startswith("D "):
             dline = case
@@ -453,7 +551,7 @@ def main(argv):
 
     # shrink and report: smallest instances first, at most two per class, at most 16 classes in detail
     reported = {}
-    for pre_key in sorted(pending, key=lambda k: min(x[6] for x in pending[k]))[:16]:
+    for pre_key in sorted(pending, key=lambda k: min(x[6] for x in pending[k]))[:28]:
         for (sl, dl0, case, i, m, v, _) in sorted(pending[pre_key], key=lambda x: x[6]):
             toks = case.split()
             store = toks[1]
@@ -480,8 +578,6 @@ def main(argv):
             reported[key] = reported.get(key, 0) + 1
             c.violation(key, what, dict(case=lines, filter=unhex(lines[2].split()[2]).decode("utf-8", "replace"), impl=i2, model=m2),
                         no_input=(v2[0] in ("accepted", "rejected", "model")))
-    for pre_key in sorted(pending)[16:] if len(pending) > 16 else []:
-        pass
 
     c.cov["evaluations"] = nq
     c.cov["distinct_nontrivial"] = len(distinct)
